@@ -18,15 +18,19 @@
 (***************************************************************************)
 EXTENDS FmtWrite
 
-CONSTANT TraceFile
+CONSTANTS TraceFile,
+          Files      \* files of multi-file runs: records like Inputs without steps (their calls are not recorded)
 Traces == ndJsonDeserialize(TraceFile)
+AllIn == Inputs \o Files
 
 VARIABLE t
 tvars == <<vars, t>>
 
 Obs == Traces[t]
 Evs == Obs.events
-InputIndex(name) == CHOOSE k \in 1..Len(Inputs) : Inputs[k].name = name
+InputIndex(name) == CHOOSE k \in 1..Len(AllIn) : AllIn[k].name = name
+TIn == AllIn[inp]
+Recorded == inp <= Len(Inputs)          \* the calls of this run were recorded
 
 TraceInit ==
   /\ t \in 1..Len(Traces)
@@ -49,6 +53,7 @@ TraceSpec == TraceInit /\ [][TraceNext]_tvars
 Min(a, b) == IF a < b THEN a ELSE b
 \* as long as every earlier call succeeded (and wrote all it was asked to), the next call is the one the extracted protocol has there
 Follows ==
+  ~Recorded \/
   \A m \in 1..Min(Len(Evs), Len(Steps)) :
      (\A q \in 1..(m - 1) : Evs[q].res = "ok" /\ (Evs[q].op = "write" => Evs[q].n = Steps[q].n))
         => (Evs[m].op = Steps[m].op /\ Evs[m].obj = Steps[m].obj)
@@ -56,8 +61,8 @@ Follows ==
 AcceptInv ==
   exit # "running" =>
     PrintT(<<"BEHAVIOUR", ToJson([accept |-> Obs.id,
-                                  explained |-> (Norm(fs.tgt, In) = Obs.file),
-                                  model |-> Norm(fs.tgt, In),
+                                  explained |-> (~Recorded \/ Norm(fs.tgt, TIn) = Obs.file),
+                                  model |-> Norm(fs.tgt, TIn),
                                   follows |-> Follows,
-                                  viol |-> Viol(In, Obs.exit, Obs.file)])>>)
+                                  viol |-> Viol(TIn, Obs.exit, Obs.file)])>>)
 =============================================================================
